@@ -136,6 +136,10 @@ func ClearRules() error {
 func LoadRules(rules []*Rule) (bool, error) {
 	resRulesMap := make(map[string][]*Rule, 16)
 	for _, rule := range rules {
+		if rule == nil {
+			// a nil rule cannot be grouped by resource; ignore it like any other invalid rule
+			continue
+		}
 		resRules, exist := resRulesMap[rule.Resource]
 		if !exist {
 			resRules = make([]*Rule, 0, 1)
